@@ -20,6 +20,7 @@ from .common import (
     MAGIC_FIRST,
     MAGIC_LAST,
     MAGIC_NOWIKI_CHAR,
+    MAGIC_RE_PATTERN,
     MAGIC_SQUOTE_CHAR,
     nowiki_quote,
 )
@@ -784,6 +785,12 @@ def _parser_pop(ctx: "Wtp", warn_unclosed: bool) -> None:
     assert warn_unclosed in (True, False)
     _parser_merge_str_children(ctx)
     node = ctx.parser_stack[-1]
+
+    # Attribute values may still hold magic characters standing for
+    # unexpanded templates, arguments or links; expand them back to text
+    for attr_name, attr_value in node.attrs.items():
+        if isinstance(attr_value, str) and MAGIC_RE_PATTERN.search(attr_value):
+            node.attrs[attr_name] = ctx._finalize_expand(attr_value)
 
     # Warn about unclosed syntaxes.
     if warn_unclosed and node.kind in MUST_CLOSE_KIND_FLAGS:
